@@ -13,6 +13,11 @@ CHECKS = {
    text="For each reachable chain state of a small set (prefix tip, partially spent multi-output tx, after a depth-2 reorg, after save+reopen) every variant block (one per rule of the statement, each next to a valid twin) and every variant sequence up to depth 2 (thorough 3) is delivered to the implementation; a rule-violating block must never become part of the active chain, a valid one must be connected, and tip + decoded UTXO map must equal the reference after every step (in particular unchanged after a refusal). Subsidy enumerated directly at all halving boundaries.",
    note="trusted: refchain rule list (MoneyRange, maturity, BIP68, sigop cost, subsidy) written from Bitcoin Core's rules; scripts limited to OP_1/OP_0 and sigop-carrying outputs (script semantics are C01)",
    design="3/C04"),
+ "C05": dict(dir="c05", level="model_checking", engine="seqx-state",
+   technique="explicit-state exploration: chain states (every activation boundary, median-time shapes, BIP34 push boundaries, 2015-block chains with retarget timespans) x header/structure/commitment variants x follow-up blocks executed on the real chain.Chain with the clock owned by an overlay shim; verdict, tip and UTXO compared with a reference rule list",
+   text="On each chain state every variant block (proof of work above target, compact-target edge encodings, wrong retarget bits for clamped and unclamped timespans, timestamps at MTP / MTP+1 / now+7200 / now+7201, ten block versions incl. negative ones at every gate height, coinbase script lengths and BIP34 pushes, coinbase count/position, lock-time finality at height and time cut-offs, merkle mutation (CVE-2012-2459, inner pair), witness commitment shapes and nonce sizes, weight 4000000/4000004) is delivered, alone and followed by a valid block; a block that violates a rule must never be accepted or stored, and a refusal must leave tip and UTXO unchanged.",
+   note="trusted: refchain.CheckBlock written from Core's rules; retarget arithmetic in unbounded integers (equals Core for limits <= 2^234); clock injected by rewriting the time import of lib/chain/block_check.go in a build overlay",
+   design="3/C05"),
 }
 
 ALL = ["C%02d" % i for i in range(1, 21)]
